@@ -412,15 +412,33 @@ def rule_s(rep, src):
         necessary="an arm that computes another operator (max in one arm of `least`) is monotone, so its range is 'sound' for the wrong function: the value and the range of the SQL function disagree for that argument type",
     )
 
+    SAT = {"saturating_add": "+", "saturating_sub": "-", "saturating_mul": "*", "saturating_div": "/", "wrapping_add": "+", "wrapping_sub": "-", "wrapping_mul": "*"}
+
+    def simp(e):
+        """AST normal form: single-expression blocks and parentheses removed, `.clamp(..)` stripped, saturating_x(a, b) -> a x b."""
+        while True:
+            if e["k"] == "block" and len(e["stmts"]) == 1 and e["stmts"][0]["k"] == "expr" and not e["stmts"][0].get("semi"):
+                e = e["stmts"][0]["e"]
+            elif e["k"] == "paren":
+                e = e["e"]
+            elif e["k"] == "mcall" and e["m"] == "clamp":
+                e = e["recv"]
+            else:
+                break
+        if e["k"] == "mcall" and e["m"] in SAT and len(e["args"]) == 1:
+            return {"k": "binary", "op": SAT[e["m"]], "lhs": simp(e["recv"]), "rhs": simp(e["args"][0]), "l": e.get("l", 0)}
+        if e["k"] == "binary":
+            return dict(e, lhs=simp(e["lhs"]), rhs=simp(e["rhs"]))
+        if e["k"] == "mcall":
+            return dict(e, recv=simp(e["recv"]), args=[simp(a) for a in e["args"]])
+        return e
+
     def norm(cl):
-        t = show(cl["body"], 0)
+        t = show(simp(cl["body"]), 0)
         ps = [p.get("name") or show(p, 0) for p in cl["params"]]
         for i, p in enumerate(ps):
             t = re.sub(r"\b%s\b" % re.escape(p), "p%d" % i, t)
-        for a, b in (("saturating_add", "+"), ("saturating_sub", "-"), ("saturating_mul", "*"), ("saturating_div", "/")):
-            t = re.sub(r"(\w+)\.%s\((\w+)\)" % a, r"\1 %s \2" % b, t)
-        t = re.sub(r"\.clamp\(.*\)$", "", t).strip("() ")
-        return t.replace(" ", "")
+        return t.replace(" ", "").replace("(", "").replace(")", "")
 
     for f in src.find_fns(file="data_type/function.rs"):
         if f.self_ty or f.node.get("vis") != "pub":
